@@ -46,9 +46,10 @@ MUTANTS = [
     {"id": "c14_data_reassigned", "prop": "C14", "needs": "second run() on the same object",
      "edits": [(P, "        data = self.pre_process_data(self.data)\n        regex_n", "        data = self.data = self.pre_process_data(self.data)\n        regex_n"),
                (P, "        data = data.decode(\"utf-8\")\n", "        data = data.decode(\"utf-8\") if isinstance(data, bytes) else data\n")]},
-    {"id": "c14_result_aliases_state", "prop": "C14", "needs": "holding a first result while running again (list shared with parser state)",
-     "edits": [(P, "        self.tables: List[Dict] = []\n        self.statement = None", "        self.tables = getattr(self, '_acc', None) or []\n        self._acc = self.tables\n        del self.tables[:]\n        self.statement = None"),
-               (P, "        return self.tables\n\n    def process_line(", "        return self.tables\n\n    def process_line(")]},
+    {"id": "c14_output_class_level_result", "prop": "C14", "needs": "a second run() in the same process (any object): Output accumulators moved to class level",
+     "edits": [(OC, "class Output:\n    \"\"\"class implements logic to format final output after parser\"\"\"\n",
+                "class Output:\n    \"\"\"class implements logic to format final output after parser\"\"\"\n\n    final_result: List[Dict] = []\n    tables_dict: Dict = {}\n"),
+               (OC, "        self.final_result = []\n        self.tables_dict = {}\n", "")]},
     {"id": "c14_group_order_from_set", "prop": "C14", "needs": "group_by_type + json_dump under another hash seed",
      "edits": [(OC, "        for item in self.final_result:\n            for key in keys_map:",
                 "        result_as_dict = {k: result_as_dict[k] for k in set(result_as_dict)}\n        for item in self.final_result:\n            for key in keys_map:")]},
@@ -67,8 +68,7 @@ MUTANTS = [
      "edits": [(P, "self.yacc.parse(self.statement, lexer=self.lexer)", "yacc.parse(self.statement)")]},
     {"id": "c15_module_lexer", "prop": "C15", "needs": "a second parser constructed before the first runs (own parser, last-built lexer)",
      "edits": [(P, "self.yacc.parse(self.statement, lexer=self.lexer)", "self.yacc.parse(self.statement)")]},
-    {"id": "c15_class_level_parser", "prop": "C15", "needs": "two parser objects alive: callbacks stay bound to the first",
-     "edits": [(P, CTOR_LEX, "        if not hasattr(Parser, \"_shared\"):\n            Parser._shared = (lex.lex(object=self, debug=False, debuglog=log), yacc.yacc(module=self, debug=False, debuglog=log))\n        self.lexer, self.yacc = Parser._shared\n")]},
+    # (a class-level shared lexer+parser was tried: the test suite itself fails with it, so it is not a valid seeded change)
     {"id": "c15_class_level_flags", "prop": "C15", "needs": "two parsers with different normalize_names, the second constructed before the first runs",
      "edits": [(P, "        self.normalize_names = normalize_names\n", "        type(self).normalize_names = normalize_names\n")]},
     {"id": "c15_class_level_silent", "prop": "C15", "needs": "two parsers with different silent, second constructed before the first runs an unsupported statement",
